@@ -4,6 +4,7 @@
 mod core;
 mod gen;
 mod modinfo;
+mod naming;
 mod projects;
 mod props;
 mod resolve;
